@@ -557,8 +557,14 @@ func run(rt *rapid.T, steps []step, g sim.Geometry) (fail string, w *world) {
 			if !connected {
 				continue
 			}
-			m.r.Send(ref.Msg{Kind: ref.KPiece, Index: uint32(i), Begin: 0, Data: x.Data(i, 0, 16384)})
+			// any block of the piece: one that was never asked for, or one that
+			// the peer has been handed and has not sent a Request for yet
+			ub := int64(s.A) % ((x.PieceLen(i) + 16383) / 16384) * 16384
+			m.r.Send(ref.Msg{Kind: ref.KPiece, Index: uint32(i), Begin: uint32(ub), Data: x.Data(i, ub, 16384)})
 			w.lab("unrequested-block")
+			if ub > 0 {
+				w.lab("unrequested-block-inside-the-piece")
+			}
 		case "reject":
 			if !connected || !m.fast || len(m.pending) == 0 {
 				continue
